@@ -100,6 +100,13 @@ def sc1(F, R):
         ok = len(e.args) - 1 == len(argspec)
         for (kind, pos), a in zip(argspec, e.args[1:]):
             ps = positions(a)
+            # bytes / pieces pushed onto a vector the value is built from
+            vecs = {strip_sites(x) for x in walk(a) if x[0] == "call" and x[1].split("::")[-1] in ("new", "with_capacity") and "Vec" in x[1]}
+            for p2 in c.raw:
+                if p2.kind == "call" and p2.name in ("push", "extend", "extend_from_slice", "push_str") and p2.args and \
+                        strip_sites(strip_load(p2.args[0])) in vecs:
+                    for a2 in p2.args[1:]:
+                        ps |= positions(a2)
             if ps != {pos} or not conversion_ok(kind, a):
                 ok = False
                 R.bad("SC1", "SC1/Script::deploy_to/%s-argument-%d" % (cmd, pos), e.where(),
@@ -238,7 +245,15 @@ def sc3(F, R):
     val = strip_load(dict(rexpr[3])["0"])
     if val[0] == "call" and val[1].split("::")[-1] == "len" and strip_sites(strip_load(val[2][0])) == strip_sites(src):
         # Ok(list.len()): equals the number applied iff no pass through the loop skips the command without failing
-        skip = reach_without(header[0], header[0], {m.site[0] for m in mut_sites})
+        back = [p for p, _ in b.pred[header[0]] if b.reaches((header[0], 0), (p, 0))]
+        okd, errd, via = result_defs_before(b, (back[0], 0)) if back else ([], [], None)
+        mutb = {m.site[0] for m in mut_sites}
+        if via is not None:
+            skip = False
+        elif okd:
+            skip = any(reach_without(header[0], d[0], mutb) for d in okd)
+        else:
+            skip = reach_without(header[0], header[0], mutb)
         if skip:
             R.bad("SC3", "SC3/Script::deploy_to/count-is-list-length-but-commands-skipped", b.where(rsite),
                   "the result is the length of the command list, but a command can be passed over without being applied")
@@ -340,12 +355,20 @@ def result_defs_before(b, isite):
     if r[0] == "call":
         return [], [], r[1]
     oks, errs = [], []
-    for bb, idx, kind, payload in r[2]:
-        site = (bb, idx)
-        e = b.expr_rvalue(payload, site) if kind == "assign" else b.expr_call(payload, site)
+
+    def leaves(defs, depth=0):
+        for bb, idx, kind, pl in defs:
+            site = (bb, idx)
+            if kind == "assign" and pl["k"] == "use" and pl["op"].get("k") in ("copy", "move") and not pl["op"]["place"]["proj"] and depth < 8:
+                inner = [(d[0], d[1], d[2], d[3]) for d in b.defs().get(pl["op"]["place"]["local"], [])]
+                if inner:
+                    yield from leaves(inner, depth + 1)
+                    continue
+            yield site, kind, pl
+    for site, kind, pl in leaves(r[2]):
+        e = b.expr_rvalue(pl, site) if kind == "assign" else b.expr_call(pl, site)
         e = strip_load(e)
-        arms = list(e[1]) if e[0] == "phi" else [e]
-        if all(strip_load(a)[0] == "agg" and strip_load(a)[2] == "Ok" for a in arms):
+        if e[0] == "agg" and e[2] == "Ok":
             oks.append(site)
         else:
             errs.append(site)
